@@ -75,6 +75,15 @@ def launch(spec, rounds):
                           "milk": ci.fl(tc["milk_kcals"]), "crops_prod": ci.fl(tc["outdoor_crops"].production.kcals)},
                "obs": ci.observe(E, I)}
         rec["obj_now"] = float(variables["objective_function"].varValue)
+        # hand-off series (before run_round_2 clips them): per food, the two sums, and the sums converted back
+        per = [getattr(I, f"{food}_{use}_kcals_equivalent").kcals for use in ("feed", "biofuels")
+               for food in ("cell_sugar", "scp", "seaweed", "outdoor_crops", "stored_food")]
+        rec["fb"] = {"per": [ci.fl(x) for x in per],
+                     "feed_ke": ci.fl(I.feed_sum_kcals_equivalent.kcals), "bio_ke": ci.fl(I.biofuels_sum_kcals_equivalent.kcals),
+                     "feed_back": ci.fl(I.feed_sum_kcals_equivalent.in_units_bil_kcals_thou_tons_thou_tons_per_month().kcals),
+                     "bio_back": ci.fl(I.biofuels_sum_kcals_equivalent.in_units_bil_kcals_thou_tons_thou_tons_per_month().kcals),
+                     "units": [I.feed_sum_kcals_equivalent.kcals_units, I.biofuels_sum_kcals_equivalent.kcals_units]}
+        rec["charge"] = {"feed": ci.fl(tc["feed"].kcals), "biofuel": ci.fl(tc["biofuel"].kcals)}
         rec["csv_failures"] = ci.csv_check(path, rec["obs"], n)
         # independent conversions of the extractor series by the implementation's own Food methods (for the split)
         rec["cr_ke"] = ci.fl(E.outdoor_crops_to_humans.in_units_kcals_equivalent().kcals)
@@ -211,6 +220,29 @@ def audit_round(rec):
         got = 2 / 3 * feed + bio / 3
         if not (got >= pfm * (1 - 1e-4) - 1e-6 and got <= pfm * (1 + 1e-6) + 1e-6):
             fail("optimum", f"round 2: 2/3 feed + 1/3 biofuel = {got!r} vs first-solve objective {pfm!r}")
+    # (c') hand-off link: the reported feed / biofuel sums converted back are the sums of the captured variables
+    a = rec["aux"]
+    fb = rec["fb"]
+    for use, back, cr_key in (("feed", fb["feed_back"], "crops_food_feed"), ("biofuel", fb["bio_back"], "crops_food_biofuel")):
+        parts = [a[f"stored_food_{use}"] or zero, v[cr_key] or zero, [y * rec["sw_kcals"] for y in (a[f"seaweed_{use}"] or zero)],
+                 a[f"cellulosic_sugar_{use}"] or zero, a[f"methane_scp_{use}"] or zero]
+        want = [sum(p[m] for p in parts) for m in range(n)]
+        sc = max([abs(x) for x in want] + [1e-12])
+        if len(back) != n:
+            fail("feed-link", f"{use}: {len(back)} months reported for NMONTHS={n}")
+            continue
+        for m in range(n):
+            if abs(back[m] - want[m]) > 1e-9 * sc:
+                fail("feed-link", f"{use} month {m}: reported sum converts back to {back[m]!r} billion kcals, captured variables sum to {want[m]!r}")
+                break
+        if rec["ty"] == "to_humans" and any(x is not None for x in parts[:1]) or rec["ty"] == "to_humans" and sc > 1e-12:
+            ch = rec["charge"][use]
+            for m in range(n):
+                if abs(back[m] - ch[m]) > 1e-6 * max(abs(ch[m]), abs(back[m])) + 1e-6:
+                    fail("feed-link", f"{use} month {m}: reported sum converts back to {back[m]!r}, the round's charge is {ch[m]!r}")
+                    break
+    if fb["units"] != ["kcals per person per day each month"] * 2:
+        fail("units", f"hand-off sums carry units {fb['units']}")
     # (d) table on disk
     for w in rec["csv_failures"][:3]:
         fail("csv", w)
@@ -274,7 +306,7 @@ def one(job):
         r["failures"] = audit_round(rec)
         r["nontrivial"] = nontrivial(rec)
         if want:
-            r["data"] = {k: rec[k] for k in ("n", "km", "sw_kcals", "settings", "vars", "series", "obs")}
+            r["data"] = {k: rec[k] for k in ("n", "km", "sw_kcals", "settings", "vars", "series", "obs", "aux", "fb")}
         out["rounds"].append(r)
     return out
 
